@@ -21,11 +21,12 @@ type ProcSys struct {
 	// settings generation: bumped by reconfigure so stamps show which config handled a record
 	opened      map[int]int // gen -> open count
 	torndown    map[int]int
-	failedOpens map[int]int // gen -> opens that returned an error (the engine may or may not tear those down)
+	failedOpens map[int]int  // gen -> opens that returned an error (the engine may or may not tear those down)
+	tdFail      map[int]bool // gen -> Teardown of this generation returns an error (scripted)
 }
 
 func newProcSys(w *World, cfg ProcCfg) *ProcSys {
-	return &ProcSys{w: w, cfg: cfg, opened: map[int]int{}, torndown: map[int]int{}, failedOpens: map[int]int{}}
+	return &ProcSys{w: w, cfg: cfg, opened: map[int]int{}, torndown: map[int]int{}, failedOpens: map[int]int{}, tdFail: map[int]bool{}}
 }
 
 // ProcPluginService implements processor.PluginService.
@@ -100,8 +101,23 @@ func (p *simProc) Teardown(ctx context.Context) error {
 	d := w.park(ctx, "proc.teardown", p.sys.cfg.ID, p.inc, nil)
 	_ = d
 	p.sys.torndown[p.gen]++
+	if p.sys.tdFail[p.gen] {
+		w.log(Event{Kind: "PROC_TEARDOWN", Ent: p.sys.cfg.ID, Inc: p.inc, N: p.gen, Err: "teardown failed"})
+		return cerrors.Errorf("sim-fault teardown processor %s gen %d", p.sys.cfg.ID, p.gen)
+	}
 	w.log(Event{Kind: "PROC_TEARDOWN", Ent: p.sys.cfg.ID, Inc: p.inc, N: p.gen})
 	return nil
+}
+
+// liveGen: the newest generation that is open and not torn down (0 if none).
+func (s *ProcSys) liveGen() int {
+	g := 0
+	for gen, n := range s.opened {
+		if n > s.torndown[gen] && gen > g {
+			g = gen
+		}
+	}
+	return g
 }
 
 func (p *simProc) hash(id RecID, salt string) int {
